@@ -237,8 +237,17 @@ def stub_shard_worker(job):
     for tsl in part:
         packed = []
         for cs in itertools.product(pool, repeat=len(tsl)):
-            sel, runs = stub_case(impl, tab, mode, tsl, cs, als, use_sqlite)
-            stub_oracle(col, tab, mode, tsl, cs, als, sel, runs)
+            try:
+                sel, runs = stub_case(impl, tab, mode, tsl, cs, als, use_sqlite)
+            except Exception as e:  # pylint: disable=broad-except
+                import traceback
+
+                col.violation("impl-violation", "RunExperiment raised %s: %s for versions %r (mode %s, table %s, --at-least candidates %r)" % (type(e).__name__, e, list(zip(tsl, cs)), mode, tab["name"], als),
+                              {"input": {"part": "stub", "mode": mode, "table": tab_json(tab), "timestamps": list(tsl), "commits": list(cs), "at_least": list(als)},
+                               "impl_observation": traceback.format_exc()[-1500:], "oracle_verdict": "no exception"}, match_key={"part": "stub-raise"}, size=len(tsl))
+                sel, runs = None, [False] * len(als)
+            else:
+                stub_oracle(col, tab, mode, tsl, cs, als, sel, runs)
             packed.append(pack(ser_opt(ser_n, sel) + [x for r in runs for x in ser_bool(r)]))
             total += 1
             kind = "none" if sel is None else ("null" if cs[tsl.index(sel)] is None else "anc")
@@ -338,7 +347,10 @@ def part_stub(chk, impl, tier):
             ok2, bad2, raw2 = run_packed_cases(IMPORTS, defs, ["single %s %s" % (mexpr, clist([str(t) for t in tsl]))], [packed])[0]
             if ok2 and bad2:
                 cs = list(itertools.product(pool, repeat=len(tsl)))[bad2[0]]
-                sel, runs = stub_case(impl, tab, mode, tsl, cs, als, False)
+                try:
+                    sel, runs = stub_case(impl, tab, mode, tsl, cs, als, False)
+                except Exception as e:  # pylint: disable=broad-except
+                    sel, runs = None, "raised %s: %s" % (type(e).__name__, e)
                 case = {"part": "stub", "mode": mode, "table": tab_json(tab), "timestamps": list(tsl), "commits": list(cs), "at_least": list(als), "impl": {"selected": sel, "should_run": runs}}
         chk.violation(
             "correspondence",
